@@ -161,8 +161,12 @@ where
             continue;
         }
 
-        if let Some(captures) = diff_pattern.captures(&line) {
-            current_file = Some(captures.get(1).unwrap().as_str().to_owned());
+        if line.starts_with("+++ ") {
+            // A header with fewer path components than the prefix to strip names no
+            // file; it must not leave the previous file current.
+            current_file = diff_pattern
+                .captures(&line)
+                .map(|captures| captures.get(1).unwrap().as_str().to_owned());
         }
 
         let lines_captures = match lines_pattern.captures(&line) {
